@@ -18,7 +18,7 @@ from .c17 import build as build17
 
 KINDS = ["mesh", "mesh", "mesh", "points", "path2d", "path3d", "primitive", "scene", "voxel"]
 CLASSES = mx.CLASSES_3D + ["tiny_below", "tiny_above", "rot_below", "rot_above", "ppm_scale"]
-OPS = ["apply_transform", "apply_scale", "apply_translation", "inverse_pair", "compose_pair", "bad_shape", "read"]
+OPS = ["apply_transform", "apply_scale", "apply_translation", "inverse_pair", "compose_pair", "bad_shape", "read", "inplace_edit", "convert_unitless"]
 PREREADS = ["face_normals", "vertex_normals", "mass", "edges", "face_adjacency", "bounds", "area", "triangles", "paths", "discrete", "polygons", "length",
             "face_angles", "vertex_defects", "extents", "centroid", "scale", "area_faces", "edges_unique_length", "face_adjacency_angles", "bounding_box", "polygons_closed", "polygons_full", "convex_hull", "kdtree", "identifier"]
 # derived values that must equal those of an object freshly built from the transformed arrays (whatever was memoised before the call)
@@ -149,6 +149,8 @@ class C04(World):
                 op["shape"] = rng.choice([[3, 3], [4], [4, 3], [5, 5]])
             if k == "read":
                 op["name"] = rng.choice(PREREADS)
+            if k == "inplace_edit":
+                op["i"], op["d"] = rng.randrange(10**6), round(rng.uniform(0.2, 0.6), 3)
             ops.append(op)
         return {"config": cfg, "ops": ops}
 
@@ -178,6 +180,13 @@ class C04(World):
             st["P"] = np.vstack([mx.apply(o.graph[n][0], np.asarray(o.geometry[o.graph[n][1]].vertices)) for n in sorted(o.graph.nodes_geometry)])
         elif kind == "voxel":
             st.update({"T": np.array(o.transform), "P": np.array(o.points), "dense": np.array(o.encoding.dense), "shape": list(o.shape)})
+            idx = np.asarray(o.sparse_indices)
+            if len(idx):
+                lo, hi = idx.min(axis=0) - 0.5, idx.max(axis=0) + 0.5
+                box = np.array([[x, y, z] for x in (lo[0], hi[0]) for y in (lo[1], hi[1]) for z in (lo[2], hi[2])], dtype=float)
+                # the eight corners of the box of filled cells, where the grid's transform puts them (own arithmetic)
+                st["corners"] = mx.apply(np.array(o.transform), box)
+                st["bounds"] = np.array(o.bounds)
         return st
 
     def _matrix_for(self, kind, op, key="matrix"):
@@ -235,6 +244,42 @@ class C04(World):
                             raise
                         except BaseException as e:
                             ctx.count("exc:" + type(e).__name__)
+                    ctx.count("op:" + k)
+                elif k == "inplace_edit":
+                    # the caller moves one vertex in place and reads nothing: the state the next transform finds the object in
+                    if kind not in ("mesh", "points", "path2d", "path3d"):
+                        raise Inapplicable()
+                    for o in objs:
+                        if not len(o.vertices):
+                            raise Inapplicable()
+                        o.vertices[int(op["i"]) % len(o.vertices)] += float(op["d"])
+                    ctx.count("op:" + k)
+                elif k == "convert_unitless":
+                    # an object that does not know its units is asked to convert them (no guessing requested): it must refuse,
+                    # and stay where it is - a silent rescale by a guessed factor is a transform nobody applied
+                    if kind not in ("mesh", "path2d", "path3d") or getattr(objs[0], "units", None) is not None:
+                        raise Inapplicable()
+                    o = objs[0]
+                    prev = self._state(kind, o)
+                    try:
+                        o.convert_units("mm")
+                        out = "accepted"
+                    except (KeyboardInterrupt, SystemExit, MemoryError):
+                        raise
+                    except BaseException as e:
+                        out = type(e).__name__
+                        ctx.count("exc:" + out)
+                    ctx.count("fault:convert-without-units")
+                    after = self._state(kind, o)
+                    if same(after.get("P"), prev.get("P"), 1e-12, "points"):
+                        ctx.fail("rejected", kind + "-convert_units", f"convert_units('mm') on an object without units ({out}) moved its points")
+                    for oo in objs[1:]:
+                        try:
+                            oo.convert_units("mm")
+                        except (KeyboardInterrupt, SystemExit, MemoryError):
+                            raise
+                        except BaseException:
+                            pass
                     ctx.count("op:" + k)
                 else:
                     self._transform_op(kind, objs, op, recipe, ctx)
@@ -442,6 +487,13 @@ class C04(World):
                 fail("transform", "VoxelGrid transform is not M . old")
             if same(a["dense"], b["dense"], 0, "dense") or a["shape"] != b["shape"]:
                 fail("encoding", "encoding changed by the transform")
+            if "corners" in b and "bounds" in a:
+                # the cells' box goes where M puts it: the grid's bounds are the bounds of its eight moved corners
+                moved = mx.apply(M, b["corners"])
+                if same(a["bounds"], np.array([moved.min(axis=0), moved.max(axis=0)]), max(tol, 1e-9) * scale, "bounds"):
+                    fail("bounds", f"VoxelGrid.bounds {a['bounds'].tolist()} is not the box of the moved corners {[moved.min(axis=0).tolist(), moved.max(axis=0).tolist()]}")
+                if len(a["P"]) and (a["P"].min(axis=0) < a["bounds"][0] - 1e-9 * scale).any() or (len(a["P"]) and (a["P"].max(axis=0) > a["bounds"][1] + 1e-9 * scale).any()):
+                    fail("bounds", "cell centres lie outside VoxelGrid.bounds")
 
     def _check_derived(self, kind, o, a, tol, scale, fail, ctx, fresh=None):
         """Bounds, lengths, angles ... equal those of an object freshly built from the arrays the object now holds."""
